@@ -38,13 +38,25 @@ THEOREMS = [
         "inf_is_loosest_distance", "inf_rejected_by_iou", "isResultCorrect_at_inf", "looserE_inf", "looserE_numbers",
         "ext_agrees_on_numbers", "isResultCorrect_mono_ext", "tp_never_lost_ext", "fn_count_antitone_ext",
         "ap_mono_threshold_ext", "aph_mono_threshold_ext", "map_mono_threshold_ext", "frame_map_mono_threshold_ext",
+        # for the code's decision tables (harness/dt_match.py)
+        "table_isResultCorrect_mono", "table_status_tp_mono",
     ]
-]
+] + (
+    ["PEval.KernelBetter.better_table_check", "PEval.KernelBetter.better_code_table_eq_model", "PEval.KernelBetter.better_eq_skeleton", "PEval.KernelBetter.better_code_table_eq_isBetterThan", "PEval.KernelBetter.better_code_table_eq_isBetterThan_matcher", "PEval.KernelBetter.table_distance_direction", "PEval.KernelBetter.table_iou_direction", "PEval.KernelBetter.table_equal_not_better", "PEval.KernelBetter.table_none_not_better", "PEval.KernelBetter.table_better_mono"]
+    + ["PEval.KernelStatus.labelCorrect_table_check", "PEval.KernelStatus.resultCorrect_table_check", "PEval.KernelStatus.status_table_check", "PEval.KernelStatus.labelCorrect_code_table_eq_model", "PEval.KernelStatus.resultCorrect_code_table_eq_model", "PEval.KernelStatus.status_code_table_eq_model", "PEval.KernelStatus.resultCorrect_eq_skeleton", "PEval.KernelStatus.status_eq_skeleton", "PEval.KernelStatus.resultCorrect_eq_skeleton_passfail", "PEval.KernelStatus.status_eq_skeleton_passfail", "PEval.KernelStatus.labelCorrect_code_table_eq_isLabelCorrect", "PEval.KernelStatus.resultCorrect_code_table_eq_isResultCorrect", "PEval.KernelStatus.status_code_table_eq_getStatus", "PEval.KernelStatus.resultCorrect_code_table_eq_passfail", "PEval.KernelStatus.status_code_table_eq_passfail", "PEval.KernelStatus.table_status_tp_sound", "PEval.KernelStatus.table_status_no_gt"]
+)
 TRUSTED = list(base.TRUSTED) + [
+    "decision-table translator (harness/dtable.py, harness/dt_match.py): the symbolic stubs stand for the objects, labels, "
+    "matching methods and thresholds of the tabulated kernels and answer every query of the REAL function from the recorded "
+    "valuation only; anything else the code touches is a leak (table marked untranslatable, no alarm); `a is b` of the "
+    "modules under test is routed through __dt_is__ (recompiled from the current source)",
     "membership of a ground truth in `non_candidates` (DynamicObject.__eq__: time, label, position, orientation) is "
     "modelled by harness id equality; generated ground truths of one frame are pairwise distinct under __eq__",
 ]
 ASSUMPTIONS = [
+    "decision tables: Boolean and order atoms are treated as independent (over-approximation of the input space, sound for "
+    "'table = model'); enum arguments (policy, matching mode) are enumerated over the members of the current source; "
+    "an untranslatable source (histogram key table:untranslatable) leaves the correspondence as the only tie",
     "ordinary (non false_positive-labelled) ground truth, as the property states: AP / mAP monotonicity is checked for "
     "labels other than false_positive (an FP-labelled ground truth is ignored by every other label's AP); the TP / FN "
     "statements are checked on all inputs (an FP-labelled ground truth never yields a TP or an FN)",
@@ -163,7 +175,7 @@ def _pair_2d(rng):
             "thrs2": _loosen(rng, mode, c["thrs"]), "items": c["items"], "G": c["G"]}
 
 
-def corpus():
+def _corpus():
     # one estimate at distance exactly 1.0 from its ground truth: FP/FN at t=1.0 (strict), TP at t'=1.25
     fr = {"est": [{"l": "car", "x": 1.0, "y": 0.0, "z": 0.0, "k": 0, "c": 0.5, "id": 0, "ge": "e"}],
           "gt": [{"l": "car", "x": 0.0, "y": 0.0, "z": 0.0, "k": 0, "id": 0, "ge": "g"},
@@ -197,9 +209,38 @@ def corpus():
     return cs
 
 
+TABLE_KEYS = ["better", "labelCorrect", "resultCorrect", "status"]
+_NOTED = []
+
+
+def _table_note():
+    try:
+        from .. import dt_match
+
+        return dt_match.table_note(TABLE_KEYS)
+    except Exception as e:  # noqa: BLE001 - the table machinery must never fail a check
+        return "table:untranslatable", {"error": f"{type(e).__name__}: {e}"}
+
+
+def table_witnesses():
+    """cases realising the valuations on which a regenerated decision table (is_better_than, is_result_correct, get_status)
+    and its model skeleton differ (empty on an unchanged tree); they are run FIRST"""
+    try:
+        from .. import dt_match
+
+        return dt_match.witness_cases(["status", "resultCorrect", "better"], dt_match.realise_c08)
+    except Exception:  # noqa: BLE001
+        return []
+
+
+def extra_evidence():
+    key, info = _table_note()
+    return {"decision_tables": info, "decision_tables_status": key}
+
+
 def generate(rng, tier):
     ns, nl, nm, n2 = (2500, 100, 20, 100) if tier == "quick" else (20000, 800, 200, 800)
-    cases = [_pair_scene(rng) for _ in range(ns)]
+    cases = table_witnesses() + [_pair_scene(rng) for _ in range(ns)]
     cases += [_pair_long(rng, 400 if i % 3 == 0 else 60) for i in range(nl)]
     cases += [_pair_manager(rng) for _ in range(nm)]
     cases += [_pair_2d(rng) for _ in range(n2)]
@@ -294,7 +335,11 @@ def run_impl(case):
                 gts.append(g)
         G = case["G"]
     out = {"res": descs, "gts": [{"id": base._uid(g), "l": LID[g.semantic_label.label.value]} for g in gts], "runs": []}
-    for thrs in (case["thrs"], case["thrs2"]):
+    for k, thrs in enumerate((case["thrs"], case["thrs2"])):
+        if case.get("npthr") and case["npthr"][k]:  # the same values handed over as numpy scalars
+            import numpy as np
+
+            thrs = [np.float64(base.tf(t)) for t in thrs]
         run = _posneg(results, gts, targets, case["mode"], thrs)
         run["map"] = _map(list(results), gts, targets, case["mode"], thrs, twod, G, case.get("dperm"))
         out["runs"].append(run)
@@ -504,6 +549,13 @@ def oracle(case, out):
 
 def branches(case, out):
     b = [f"src={case['src']}"]
+    if case.get("table_witness"):
+        b.append("table:witness-case")
+    if case.get("npthr"):
+        b.append("thresholds:numpy-scalars")
+    if not _NOTED:
+        _NOTED.append(1)
+        b.append(_table_note()[0])
     lists = [case["thrs"], case["thrs2"]] if "thrs" in case else [t for v in case["fam"].values() for t in v]
     b.extend(base.thr_branches(lists))
     if "thrs" in case:
@@ -589,4 +641,9 @@ def shrink(case):
 
 
 def search(rng, st, disagreements):
-    return [_pair_scene(rng) for _ in range(3000)] + [_pair_long(rng, 120) for _ in range(100)]
+    return table_witnesses() + [_pair_scene(rng) for _ in range(3000)] + [_pair_long(rng, 120) for _ in range(100)]
+
+
+def corpus():
+    """table witnesses (empty on an unchanged tree) first, then the stored corner cases"""
+    return table_witnesses() + list(_corpus())
